@@ -360,6 +360,20 @@ func ZZHarnessAttesterHistory() {
 	otherDuty := *duty
 	otherDuty.ValidatorIndex = 8
 	otherValue, _ := zzCDEncode(&spectypes.ConsensusData{Duty: otherDuty, Version: spec.DataVersionPhase0, DataSSZ: []byte{0xA7, 1}})
+	// optionally the running instance has already accepted the round-1 proposal (the leader's, or its own one
+	// looped back) when the certificates arrive
+	if pm := zzParam("PROP"); pm == 1 || (pm == 2 && zzNondetBool("proposalAccepted")) {
+		root, _ := zzHashDataRoot(ownValue)
+		leader := specqbft.RoundRobinProposer(g.r.GetState().RunningInstance.State, 1)
+		propMsg := specqbft.Message{MsgType: specqbft.ProposalMsgType, Height: specqbft.Height(H), Round: 1, Identifier: g.id, Root: root}
+		zzPhase = 2
+		perr := g.r.ProcessConsensus(g.lg, zzHonest(leader, propMsg, ownValue))
+		zzPhase = 0
+		zzAssume(perr == nil)
+		zzAssume(g.r.GetState().RunningInstance.State.ProposalAcceptedForCurrentRound != nil)
+		zzAssert(len(g.km.sigs) == 0, "no-validator-key-signature-on-accepting-a-proposal")
+		zzReach("proposal-accepted")
+	}
 	signedAtStep := -1
 	for step := 0; step < k; step++ {
 		h := specqbft.Height(uint64(H) + zzNondetRange("dh", 0, 3) - 1)
